@@ -1309,7 +1309,10 @@ struct array : static_array<T, D, Alloc> {
 	}
 
 	auto operator=(array const& other) -> array& {
-		if(array::extensions() == other.extensions()) {
+		if(
+			array::extensions() == other.extensions()
+			&& (!multi::allocator_traits<typename array::allocator_type>::propagate_on_container_copy_assignment::value || this->alloc() == other.alloc())  // a propagated unequal allocator cannot keep the current block
+		) {
 			if(this == &other) {
 				return *this;
 			}  // required by cert-oop54-cpp
